@@ -197,6 +197,12 @@ class Prop(PropBase):
             lines.append('E')
             par.append('\n'.join(lines))
         out.append(('par', '\n'.join(par) + '\n'))
+        # an instance owns its settings: the parameter object handed to init() is the caller's, who overwrites and frees it right after
+        # init() returned (the harness does so for every instance) - e.g. to configure the next LiDAR. Capture-file inputs consult
+        # their settings for every record: the jumbo reader's datagrams must still be those of its own configuration
+        from props import C16 as C16mod
+        self.c16 = C16mod.Prop(); self.c16.setup(self.L, self.G, self.C)
+        out.append(('owncfg_jumbo', [txt for (bn, txt) in self.c16.generate(rng, 'quick') if bn == 'jumbo'][0]))
         return out
 
     def kernel_class(self, k):
@@ -213,6 +219,11 @@ class Prop(PropBase):
         if bname.startswith('kern'):
             return self.judge_kernels(bname, inp, impl_path, model_path, violations, broken, stats)
         text = open(inp).read()
+        if bname == 'owncfg_jumbo' or (bname == 'replay' and '\nS c16_' in '\n' + text):
+            if not hasattr(self, 'c16'):
+                from props import C16 as C16mod
+                self.c16 = C16mod.Prop(); self.c16.setup(self.L, self.G, self.C)
+            return self.c16.judge('jumbo', inp, impl_path, model_path, impl_log, violations, broken, stats)
         impl = dict(CMP.split_scenarios(impl_path))
         model = dict(CMP.split_scenarios(model_path))
         if bname == 'seq':
